@@ -63,6 +63,18 @@ class BasePickerModel(ABC):
     ) -> NDArray[np.object_]:
         pos, quats, features = self.pick_in_chunk(image, **kwargs)
         locs: list[tuple[int, int]] = block_info[None]["array-location"]
+        # Every block is extended by the overlap depth on both sides, so a particle near
+        # a block border is found by all the neighboring blocks. Keep only the ones in
+        # the core region of this block to avoid duplication.
+        keep = np.ones(pos.shape[0], dtype=np.bool_)
+        for i, (start, stop) in enumerate(locs):
+            core_size = stop - start
+            depth_i = (image.shape[i] - core_size) / 2
+            keep &= (depth_i - 0.5 <= pos[:, i]) & (pos[:, i] < depth_i + core_size - 0.5)
+        pos = pos[keep]
+        quats = quats[keep]
+        if isinstance(features, dict):
+            features = {k: np.asarray(v)[keep] for k, v in features.items()}
         for i, (start, _) in enumerate(locs):
             pos[:, i] += start
 
